@@ -124,7 +124,7 @@ func c07T2(c *Ctx) {
 		}, 2)
 		okDef := u.Match(an.LocalStore("ok"))
 		r.Check("C07-T2", "IsBatchable: the duplicate test looks the command's key up in the keys of the open batch", "",
-			len(okDef) == 1 && okDef[0].Tuple != nil && u.C.Term(okDef[0].Tuple) == "recv.dupCheckMap[string(p1)]", "")
+			len(okDef) == 1 && okDef[0].Tuple != nil && u.C.Term(okDef[0].Tuple) == "recv.dupCheckMap[p1]", "")
 	}
 	// T1 (cache residency): the HLL cache is replica-local volatile state (it is emptied by restarts and evictions that
 	// are not in the log). PFADD's reply must not depend on whether the sketch happened to be cached: `changed` is raised
